@@ -8,6 +8,10 @@ from harness.props.c07 import pre_build as _pre, members
 
 LEAN_MODULES = ["BipVerif.Props.C08"]
 IMPL = dict(B44_IMPL)
+from harness.props.c19 import IMPL as _C19_IMPL, ORACLES  # noqa  (sr25519 answers come from the bindings, called directly)
+from harness.props.c16 import IMPL as _C16_IMPL
+IMPL["substrate"] = _C19_IMPL["substrate"]
+IMPL["xmrwallet"] = _C16_IMPL["xmrwallet"]
 
 
 def pre_build():
@@ -25,6 +29,19 @@ def gen(rng, tier):
         for s in seeds:
             yield Case("bip44", [fam, m, var, hx(s), "D"], "default-" + fam)
             yield Case("bip44", [fam, m, var, hx(s), "P,C,A0"], "account-" + fam)
+    # the Substrate and Monero enumerations: every member x seeds (x every constructor for Monero), wallet keys and addresses
+    from bip_utils import SubstrateCoins, MoneroCoins
+    seeds32 = [bytes(rng.randrange(256) for _ in range(32)) for _ in range(2)]
+    for coin in SubstrateCoins:
+        for s in seeds32:
+            for path in ("", "//hard/soft", "/1"):
+                yield Case("substrate", ["seed", hx(s[:32]), coin.name, tx(path), 99], "substrate-" + ("master" if not path else "path"))
+    for coin in MoneroCoins:
+        for s in seeds32:
+            pid = bytes(rng.randrange(256) for _ in range(8))
+            for kind in ("seed", "bip44", "spend"):
+                key = s[:32] if kind != "spend" else (int.from_bytes(s[:32], "little") % (2**252 + 27742317777372353535851937790883648493)).to_bytes(32, "little")
+                yield Case("xmrwallet", [kind, hx(key), "-", coin.name, 1, 2, hx(pid)], "monero-" + kind)
     # output-dependent: Taproot output keys with a leading zero byte (fixed 32-byte witness program)
     for m in ("BITCOIN", "BITCOIN_TESTNET") if tier == "quick" else ("BITCOIN", "BITCOIN_TESTNET", "BITCOIN_REGTEST"):
         for s in _taproot_leading_zero_seeds(rng, m, 1 if tier == "quick" else 6):
@@ -104,6 +121,43 @@ def relations(rng, tier, rpt):
                 if k != pk.Raw().ToBytes() or gm != want_mode or w != ref:
                     rep("WIF does not round-trip (key, compression mode) under the coin's version byte", "%s.%s mode=%s" % (r["family"], r["member"], want_mode),
                         "%s %s %s" % (w, k.hex(), gm), "%s %s %s" % (ref, pk.Raw().ToHex(), want_mode))
+    # Substrate and Monero members: the coin's own decoder, with the coin's own parameters, accepts the coin's addresses
+    from bip_utils import (Substrate, SubstrateCoins, SubstrateSr25519AddrDecoder, Monero, MoneroCoins, XmrAddrDecoder, XmrIntegratedAddrDecoder,
+                           Ed25519PrivateKey)
+    from bip_utils.substrate.conf import SubstrateConfGetter
+    from bip_utils.monero.conf import MoneroConfGetter
+    for coin in SubstrateCoins:
+        conf = SubstrateConfGetter.GetConfig(coin)
+        for path in ("", "//a/b"):
+            w = Substrate.FromSeedAndPath(seed[:32], path, coin)
+            addr = w.PublicKey().ToAddress()
+            n += 1
+            try:
+                back = SubstrateSr25519AddrDecoder.DecodeAddr(addr, ss58_format=conf.SS58Format())
+                if back != w.PublicKey().RawCompressed().ToBytes():
+                    rep("Substrate address decodes to a different key", "%s %s" % (coin.name, addr), back.hex(), w.PublicKey().RawCompressed().ToHex())
+            except Exception as ex:  # noqa
+                rep("the coin's own decoder (its SS58 format) rejects the coin's address", "%s format=%d %s" % (coin.name, conf.SS58Format(), addr), type(ex).__name__, "accepted")
+    for coin in MoneroCoins:
+        conf = MoneroConfGetter.GetConfig(coin)
+        pid = bytes(range(8))
+        wallets = {"FromSeed": Monero.FromSeed(seed[:32], coin), "FromBip44PrivateKey(bytes)": Monero.FromBip44PrivateKey(seed[:32], coin),
+                   "FromBip44PrivateKey(key object)": Monero.FromBip44PrivateKey(Ed25519PrivateKey.FromBytes(seed[:32]), coin)}
+        full = wallets["FromSeed"]
+        wallets["FromPrivateSpendKey"] = Monero.FromPrivateSpendKey(full.PrivateSpendKey().Raw().ToBytes(), coin)
+        wallets["FromWatchOnly"] = Monero.FromWatchOnly(full.PrivateViewKey().Raw().ToBytes(), full.PublicSpendKey().RawCompressed().ToBytes(), coin)
+        for how, w in wallets.items():
+            n += 1
+            keys = w.PublicSpendKey().RawCompressed().ToBytes() + w.PublicViewKey().RawCompressed().ToBytes()
+            for what, addr, f in (("primary", w.PrimaryAddress(), lambda a: XmrAddrDecoder.DecodeAddr(a, net_ver=conf.AddrNetVersion())),
+                                  ("sub-address", w.Subaddress(3, 1), lambda a: XmrAddrDecoder.DecodeAddr(a, net_ver=conf.SubaddrNetVersion())),
+                                  ("integrated", w.IntegratedAddress(pid), lambda a: XmrIntegratedAddrDecoder.DecodeAddr(a, net_ver=conf.IntegratedAddrNetVersion(), payment_id=pid))):
+                try:
+                    back = f(addr)
+                    if what != "sub-address" and back != keys:
+                        rep("Monero %s address decodes to different keys" % what, "%s %s" % (coin.name, how), back.hex(), keys.hex())
+                except Exception as ex:  # noqa
+                    rep("the coin's own decoder (its network bytes) rejects the coin's %s address" % what, "%s via %s: %s" % (coin.name, how, addr), type(ex).__name__, "accepted")
     # the coin constants are the same after the flows as before them: wrappers that specialise a configuration (CardanoShelley for
     # CIP-1852, the toggles above) must leave the shared configuration objects as they found them
     from bip_utils import CardanoShelley, Cip1852, Cip1852Coins, Bip44Changes
